@@ -129,7 +129,10 @@ def build(tier, seed):
                        "completes its own encode with an arbitrary palette. The assertion is that A's emitted indices and table "
                        "equal its sequential result for EVERY k and palette. A census of process-global mutable state validates "
                        "that the colour context is the only shared state in play.",
-        "outside": ["data races inside polars / pydantic-core", "more than two preemptions", "preemptions inside a single call of "
+        "outside": ["preemptions at call boundaries other than the modelled ones are covered by concrete witnesses only (real documents, "
+                    "thread A stopped before its k-th call of ANY function of the package while thread B encodes completely: every "
+                    "k in the thorough tier, a seeded stride of about 160 boundaries per document pair in the quick tier)",
+                    "data races inside polars / pydantic-core", "more than two preemptions", "preemptions inside a single call of "
                     "the colour API (the GIL makes each such call's bytecode interleavable in principle; modelled at call "
                     "granularity)", "free-threaded builds"],
         "assumptions": ["thread B interacts with thread A only through process-global Python objects of rtflite (census) and through "
